@@ -35,8 +35,8 @@ def run(ctx):
     cmp_prop(ctx, POLY, 'SubPoly', 'dim', 'set', S.POLY_DIM_SET)
     cmp_prop(ctx, POLY, 'SubPoly', 'size', 'get', S.POLY_SIZE)
     derives(ctx, POLY, 'Poly', POLY, 'SubPoly')
-    ctx.check('Poly overrides only __getitem__', plain_methods(ctx, POLY, 'Poly') == ['__getitem__'],
-              'Poly defines %s' % plain_methods(ctx, POLY, 'Poly'), POLY)
+    over = sorted(set(plain_methods(ctx, POLY, 'Poly')) & set(n.name for n in ctx.repo.cls(POLY, 'SubPoly').body if hasattr(n, 'name')))
+    ctx.check('Poly overrides only __getitem__', over == ['__getitem__'], 'Poly overrides %s of SubPoly' % over, POLY)
 
     ctx.rule('C16 reflected operators keep their operand order (dispatch depends on it)')
     ORD = T.Opts(ordered=True)
